@@ -1584,10 +1584,30 @@ def check(repo_root, spec=None, gen_dir=GEN_DIR, out=sys.stdout):
 
 # ----------------------------------------------------------------------------------------------- the spec (trusted)
 FN_SPAN = "fn(int,list[float],int,float)->int"
+MAT = "list[list[float]]"
 SPEC = {
-    "order": ["linalg", "knotvector", "helpers"],
+    "order": ["_linalg", "linalg", "knotvector", "helpers"],
     "modules": {
-        "linalg": {"file": "geomdl/linalg.py", "coq_module": "Linalg", "imports": [], "functions": [
+        "_linalg": {"file": "geomdl/_linalg.py", "coq_module": "LinalgInternal", "imports": [], "functions": [
+            {"name": "doolittle", "params": {"matrix_a": MAT}, "returns": "tuple[%s,%s]" % (MAT, MAT)},
+        ]},
+        "linalg": {"file": "geomdl/linalg.py", "coq_module": "Linalg", "imports": ["_linalg"], "functions": [
+            {"name": "vector_cross", "params": {"vector1": "list[float]", "vector2": "list[float]"}, "returns": "list[float]"},
+            {"name": "vector_dot", "params": {"vector1": "list[float]", "vector2": "list[float]"}, "returns": "float"},
+            {"name": "vector_multiply", "params": {"vector_in": "list[float]", "scalar": "float"}, "returns": "list[float]"},
+            {"name": "vector_sum", "params": {"vector1": "list[float]", "vector2": "list[float]", "coeff": "float"},
+             "returns": "list[float]"},
+            # alias_ok: m_t.append(temp) stores the list object `temp`; temp is rebound to a new list at the start of the
+            # next iteration and the stored object is never updated again
+            {"name": "matrix_transpose", "params": {"m": MAT}, "returns": MAT, "alias_ok": True},
+            {"name": "matrix_multiply", "params": {"mat1": MAT, "mat2": MAT}, "returns": MAT},
+            {"name": "lu_decomposition", "params": {"matrix_a": MAT}, "returns": "tuple[%s,%s]" % (MAT, MAT)},
+            # checked_div: the model represents the ZeroDivisionError of these two functions (a zero pivot) as Crash
+            {"name": "forward_substitution", "params": {"matrix_l": MAT, "matrix_b": "list[float]"},
+             "returns": "list[float]", "checked_div": True},
+            {"name": "backward_substitution", "params": {"matrix_u": MAT, "matrix_y": "list[float]"},
+             "returns": "list[float]", "checked_div": True},
+            {"name": "lu_solve", "params": {"matrix_a": MAT, "b": MAT}, "returns": MAT},
             {"name": "linspace", "params": {"start": "float", "stop": "float", "num": "int", "decimals": "int"},
              "returns": "list[float]"},
         ]},
@@ -1636,6 +1656,8 @@ SPEC = {
              "kwargs": {"num": "int", "s": "int", "span": "int"}, "returns": "list[list[float]]", "alias_ok": True},
             {"name": "knot_insertion_kv",
              "params": {"knotvector": "list[float]", "u": "float", "span": "int", "r": "int"},
+             "returns": "list[float]"},
+            {"name": "knot_removal_kv", "params": {"knotvector": "list[float]", "span": "int", "r": "int"},
              "returns": "list[float]"},
         ]},
     },
